@@ -293,10 +293,37 @@ false (`nested_unknown_inert_refs_needs_guard`).
 
 Conclusion: the same errors up to `Spec.eraseDeep`, the same way of stopping, final states related
 in the same way (with the guard and the coverage again, so that the statement composes over a
-history of runs). -/
+history of runs).
 
-theorem nested_unknown_inert_refs (d : Draft) (fc : Option FormatChecker) (env : Env) (impl : FmtImpl)
-    (G : Str → Prop) (s s' : Json) (h : Spec.Ins d s s') (st st' : RState)
+The statement as first given (`nested_unknown_inert_refs_statement`) is FALSE
+(`nested_unknown_inert_refs_counterexample`): Drafts 3 and 4 do not constrain `$ref`, and a `$ref`
+whose value is a FALSY SCALAR (`None`, `0`, `0.0`, `false`) is followed, as the EMPTY reference, when
+the base URI in effect is non-empty (`urljoin(base, url)` then continues with `if not url: return base`;
+`JS.refReading`) — a reference that
+`Spec.refsOf`, which lists the STRING values of `$ref` members, does not see, so that `G` need not
+contain it and the guard says nothing about where it lands.  The missing hypothesis, made explicit
+in `nested_unknown_inert_refs_partial`: the empty reference belongs to `G` (`hempty`). -/
+
+def nested_unknown_inert_refs_statement : Prop :=
+  ∀ (d : Draft) (fc : Option FormatChecker) (env : Env) (impl : FmtImpl)
+    (G : Str → Prop) (s s' : Json) (_h : Spec.Ins d s s') (st st' : RState)
+    (_hst : Spec.InsState d st st')
+    (_hs' : Spec.RefsIn G s') (_hcov : Spec.Covered G st') (_hworld : Spec.WorldCovered env G)
+    (_hguard : Spec.Lands d env G st.store st'.store)
+    (fuel : Nat) (inst : Json) (b : Option Nat),
+    ((eval env impl (d.cfg fc) fuel inst s' b st').errs.map Spec.eraseDeep
+        = (eval env impl (d.cfg fc) fuel inst s b st).errs.map Spec.eraseDeep)
+    ∧ (eval env impl (d.cfg fc) fuel inst s' b st').stop = (eval env impl (d.cfg fc) fuel inst s b st).stop
+    ∧ Spec.InsState d (eval env impl (d.cfg fc) fuel inst s b st).st (eval env impl (d.cfg fc) fuel inst s' b st').st
+    ∧ Spec.Covered G (eval env impl (d.cfg fc) fuel inst s' b st').st
+    ∧ Spec.Lands d env G (eval env impl (d.cfg fc) fuel inst s b st).st.store
+        (eval env impl (d.cfg fc) fuel inst s' b st').st.store
+
+/-- the statement with the missing hypothesis made explicit: the empty reference — what a `$ref` with
+    a falsy scalar value is read as (under a non-empty base) — is one of the references that can be met
+    (`hempty`), so that the guard covers it -/
+theorem nested_unknown_inert_refs_partial (d : Draft) (fc : Option FormatChecker) (env : Env) (impl : FmtImpl)
+    (G : Str → Prop) (hempty : G []) (s s' : Json) (h : Spec.Ins d s s') (st st' : RState)
     (hst : Spec.InsState d st st')
     (hs' : Spec.RefsIn G s') (hcov : Spec.Covered G st') (hworld : Spec.WorldCovered env G)
     (hguard : Spec.Lands d env G st.store st'.store)
@@ -308,35 +335,59 @@ theorem nested_unknown_inert_refs (d : Draft) (fc : Option FormatChecker) (env :
     ∧ Spec.Covered G (eval env impl (d.cfg fc) fuel inst s' b st').st
     ∧ Spec.Lands d env G (eval env impl (d.cfg fc) fuel inst s b st).st.store
         (eval env impl (d.cfg fc) fuel inst s' b st').st.store := by
-  have hsim := NestedRefs.eval_recRelR d env G hworld impl fc fuel inst s s' ⟨h, hs'⟩ b st st' ⟨hst, hcov, hguard⟩
+  have hsim := NestedRefs.eval_recRelR d env G hworld hempty impl fc fuel inst s s' ⟨h, hs'⟩ b st st' ⟨hst, hcov, hguard⟩
   exact ⟨hsim.1.symm, hsim.2.1.symm, hsim.2.2.ins, hsim.2.2.cov, hsim.2.2.lands⟩
 
 /-- … with the canonical `G`: the reference strings occurring in `s'`, in the documents the primed
-    state holds, and in retrievable documents -/
-theorem nested_unknown_inert_refs_met (d : Draft) (fc : Option FormatChecker) (env : Env) (impl : FmtImpl)
+    state holds, and in retrievable documents.  As first given; FALSE for the same reason
+    (`nested_unknown_inert_refs_met_counterexample`): `Spec.refsMet` lists string references only. -/
+def nested_unknown_inert_refs_met_statement : Prop :=
+  ∀ (d : Draft) (fc : Option FormatChecker) (env : Env) (impl : FmtImpl)
+    (s s' : Json) (_h : Spec.Ins d s s') (st st' : RState) (_hst : Spec.InsState d st st')
+    (_hguard : Spec.Lands d env (Spec.refsMet env s' st') st.store st'.store)
+    (fuel : Nat) (inst : Json) (b : Option Nat),
+    ((eval env impl (d.cfg fc) fuel inst s' b st').errs.map Spec.eraseDeep
+        = (eval env impl (d.cfg fc) fuel inst s b st).errs.map Spec.eraseDeep)
+    ∧ (eval env impl (d.cfg fc) fuel inst s' b st').stop = (eval env impl (d.cfg fc) fuel inst s b st).stop
+    ∧ Spec.InsState d (eval env impl (d.cfg fc) fuel inst s b st).st (eval env impl (d.cfg fc) fuel inst s' b st').st
+
+/-- … with the canonical `G` and the empty reference: the guard is asked of the reference strings
+    that can be met AND of the empty reference -/
+theorem nested_unknown_inert_refs_met_partial (d : Draft) (fc : Option FormatChecker) (env : Env) (impl : FmtImpl)
     (s s' : Json) (h : Spec.Ins d s s') (st st' : RState) (hst : Spec.InsState d st st')
-    (hguard : Spec.Lands d env (Spec.refsMet env s' st') st.store st'.store)
+    (hguard : Spec.Lands d env (fun r => Spec.refsMet env s' st' r ∨ r = []) st.store st'.store)
     (fuel : Nat) (inst : Json) (b : Option Nat) :
     ((eval env impl (d.cfg fc) fuel inst s' b st').errs.map Spec.eraseDeep
         = (eval env impl (d.cfg fc) fuel inst s b st).errs.map Spec.eraseDeep)
     ∧ (eval env impl (d.cfg fc) fuel inst s' b st').stop = (eval env impl (d.cfg fc) fuel inst s b st).stop
     ∧ Spec.InsState d (eval env impl (d.cfg fc) fuel inst s b st).st (eval env impl (d.cfg fc) fuel inst s' b st').st := by
-  have key := nested_unknown_inert_refs d fc env impl (Spec.refsMet env s' st') s s' h st st' hst
-    (fun r hr => .inl hr)
-    ⟨fun kv hkv r hr => .inr (.inl ⟨kv, hkv, hr⟩), fun kv hkv r hr => .inr (.inr (.inl ⟨kv, hkv, hr⟩))⟩
-    (fun n u doc hf r hr => .inr (.inr (.inr ⟨n, u, doc, hf, hr⟩)))
+  have key := nested_unknown_inert_refs_partial d fc env impl (fun r => Spec.refsMet env s' st' r ∨ r = [])
+    (.inr rfl) s s' h st st' hst
+    (fun r hr => .inl (.inl hr))
+    ⟨fun kv hkv r hr => .inl (.inr (.inl ⟨kv, hkv, hr⟩)), fun kv hkv r hr => .inl (.inr (.inr (.inl ⟨kv, hkv, hr⟩)))⟩
+    (fun n u doc hf r hr => .inl (.inr (.inr (.inr ⟨n, u, doc, hf, hr⟩))))
     hguard fuel inst b
   exact ⟨key.1, key.2.1, key.2.2.1⟩
 
-/-- … in particular the verdict -/
-theorem nested_unknown_inert_refs_verdict (d : Draft) (fc : Option FormatChecker) (env : Env) (impl : FmtImpl)
-    (G : Str → Prop) (s s' : Json) (h : Spec.Ins d s s') (st st' : RState)
+/-- … in particular the verdict.  As first given; FALSE for the same reason
+    (`nested_unknown_inert_refs_verdict_counterexample`). -/
+def nested_unknown_inert_refs_verdict_statement : Prop :=
+  ∀ (d : Draft) (fc : Option FormatChecker) (env : Env) (impl : FmtImpl)
+    (G : Str → Prop) (s s' : Json) (_h : Spec.Ins d s s') (st st' : RState)
+    (_hst : Spec.InsState d st st')
+    (_hs' : Spec.RefsIn G s') (_hcov : Spec.Covered G st') (_hworld : Spec.WorldCovered env G)
+    (_hguard : Spec.Lands d env G st.store st'.store)
+    (fuel : Nat) (inst : Json),
+    (isValid (eval env impl (d.cfg fc) fuel inst s') st').1 = (isValid (eval env impl (d.cfg fc) fuel inst s) st).1
+
+theorem nested_unknown_inert_refs_verdict_partial (d : Draft) (fc : Option FormatChecker) (env : Env) (impl : FmtImpl)
+    (G : Str → Prop) (hempty : G []) (s s' : Json) (h : Spec.Ins d s s') (st st' : RState)
     (hst : Spec.InsState d st st')
     (hs' : Spec.RefsIn G s') (hcov : Spec.Covered G st') (hworld : Spec.WorldCovered env G)
     (hguard : Spec.Lands d env G st.store st'.store)
     (fuel : Nat) (inst : Json) :
     (isValid (eval env impl (d.cfg fc) fuel inst s') st').1 = (isValid (eval env impl (d.cfg fc) fuel inst s) st).1 := by
-  have key := nested_unknown_inert_refs d fc env impl G s s' h st st' hst hs' hcov hworld hguard fuel inst (some 1)
+  have key := nested_unknown_inert_refs_partial d fc env impl G hempty s s' h st st' hst hs' hcov hworld hguard fuel inst (some 1)
   unfold isValid
   revert key
   generalize eval env impl (d.cfg fc) fuel inst s' (some 1) st' = o'
@@ -434,6 +485,20 @@ theorem nested_unknown_inert_refs_needs_guard :
     (Refs.covered_stOf Refs.cex_refs) (Refs.world _) 3 Refs.cexInst none
   exact Refs.cex_differ (congrArg Stop.isDone this)
 
+/-- … nor from `nested_unknown_inert_refs_partial`: the same runs, `G` being every string -/
+theorem nested_unknown_inert_refs_partial_needs_guard :
+    ¬ (∀ (d : Draft) (fc : Option FormatChecker) (env : Env) (impl : FmtImpl)
+        (G : Str → Prop) (_hempty : G []) (s s' : Json) (_h : Spec.Ins d s s') (st st' : RState)
+        (_hst : Spec.InsState d st st')
+        (_hs' : Spec.RefsIn G s') (_hcov : Spec.Covered G st') (_hworld : Spec.WorldCovered env G)
+        (fuel : Nat) (inst : Json) (b : Option Nat),
+        (eval env impl (d.cfg fc) fuel inst s' b st').stop = (eval env impl (d.cfg fc) fuel inst s b st).stop) := by
+  intro hall
+  have := hall .d7 none Refs.env RefCex.impl (fun _ => True) trivial Refs.cexS Refs.cexS' Refs.cex_ins
+    (Refs.stOf Refs.cexS) (Refs.stOf Refs.cexS') (Refs.insState_stOf Refs.cex_ins) (fun _ _ => trivial)
+    (Refs.covered_stOf (fun _ _ => trivial)) (Refs.world _) 3 Refs.cexInst none
+  exact Refs.cex_differ (congrArg Stop.isDone this)
+
 /-! A weaker guard — "no run ends with `RefResolutionError`" (every reference resolves, on both
     sides) — is NOT enough: a pointer may stop at a position that is not a schema position of the
     insertion.  `{"properties": {"const": {}}, "allOf": [{"$ref": "#/properties"}]}` and the same schema
@@ -525,18 +590,37 @@ theorem nv_ins : Ins .d7 nvS nvS' :=
           .nil)
       .nil
 
-/-- the reference strings that can be met -/
-def nvG (r : Str) : Prop := r = k "#/definitions/pos"
+/-- the reference strings that can be met, and the empty reference (which lands on the whole
+    document) -/
+def nvG (r : Str) : Prop := r = k "#/definitions/pos" ∨ r = []
 
 theorem nv_refs : RefsIn nvG nvS' := by
   have : refsOf nvS' = [k "#/definitions/pos"] := by decide +kernel
   intro r hr
   rw [this] at hr
-  exact List.mem_singleton.1 hr
+  exact .inl (List.mem_singleton.1 hr)
 
 /-- the one reference lands, in both documents, on the same definition -/
 theorem nv_lands : Lands .d7 env nvG (stOf nvS).store (stOf nvS').store := by
   intro r hr scope url u frag key doc doc' hj hdf hn hl hl'
+  rcases hr with hr | hr
+  swap
+  · subst hr
+    cases hj
+    have e : env.urldefrag [] = some ([], []) := by decide +kernel
+    rw [e] at hdf
+    cases hdf
+    cases hn
+    have e1 : Json.lookup [] (stOf nvS).store = some nvS := rfl
+    have e2 : Json.lookup [] (stOf nvS').store = some nvS' := rfl
+    rw [e1] at hl
+    rw [e2] at hl'
+    cases hl
+    cases hl'
+    have f1 : resolveFragment nvS [] = some nvS := by decide +kernel
+    have f2 : resolveFragment nvS' [] = some nvS' := by decide +kernel
+    rw [f1, f2]
+    exact nv_ins
   cases hr
   cases hj
   have e : env.urldefrag (k "#/definitions/pos") = some ([], k "/definitions/pos") := by decide +kernel
@@ -562,7 +646,7 @@ example (fc : Option FormatChecker) (impl : FmtImpl) (fuel : Nat) (inst : Json) 
         = (eval env impl (Draft.d7.cfg fc) fuel inst nvS b (stOf nvS)).errs.map eraseDeep)
     ∧ (eval env impl (Draft.d7.cfg fc) fuel inst nvS' b (stOf nvS')).stop
         = (eval env impl (Draft.d7.cfg fc) fuel inst nvS b (stOf nvS)).stop :=
-  have key := nested_unknown_inert_refs .d7 fc env impl nvG nvS nvS' nv_ins (stOf nvS) (stOf nvS')
+  have key := nested_unknown_inert_refs_partial .d7 fc env impl nvG (.inr rfl) nvS nvS' nv_ins (stOf nvS) (stOf nvS')
     (insState_stOf nv_ins) nv_refs (covered_stOf nv_refs) (world _) nv_lands fuel inst b
   ⟨key.1, key.2.1⟩
 
@@ -576,6 +660,97 @@ example :
   decide +kernel
 
 end Refs
+
+/-! #### a `$ref` with a falsy scalar value is followed, as the empty reference
+
+Draft 4 (whose metaschema does not describe `$ref`), a world with one document under the base URI
+`""` in which `urljoin` returns the base for the empty reference and the reference otherwise:
+`{"id": "#/x-foo", "properties": {"a": {"$ref": 0}}}` and the same schema with the root member
+`"x-foo": {"type": "string"}` inserted.  No `$ref` member has a string value — `Spec.refsOf` is empty, every
+`G` covers it, the guard holds vacuously for the empty `G` — but `{"$ref": 0}` is followed as the
+empty reference (the base URI in effect, `#/x-foo`, is non-empty): it resolves to that base, that is
+INTO the inserted member.
+The unprimed run ends with `RefResolutionError`, the primed run validates against `{"type": "string"}`. -/
+
+namespace Refs
+open Spec
+
+/-- `Refs.env` with an `urljoin` that returns the base for the empty reference -/
+def envJ : Env := { env with urljoin := fun base r => some (if r.isEmpty then base else r) }
+
+def falsyS : Json :=
+  .obj [(k "id", .str (k "#/x-foo")), (k "properties", .obj [(k "a", .obj [(k "$ref", .num (.int 0))])])]
+
+def falsyS' : Json :=
+  .obj [(k "x-foo", .obj [(k "type", .str (k "string"))]),
+        (k "id", .str (k "#/x-foo")), (k "properties", .obj [(k "a", .obj [(k "$ref", .num (.int 0))])])]
+
+theorem xfoo_inert4 : Inert .d4 (k "x-foo") := by
+  unfold Inert; decide +kernel
+
+theorem falsy_ins : Ins .d4 falsyS falsyS' :=
+  .obj <| .insert (k "x-foo") _ xfoo_inert4 <| .keep (k "id") _ _ (.same _ _) <|
+    .keep (k "properties") _ _ (.same _ _) .nil
+
+theorem falsy_refsOf : refsOf falsyS' = [] := by decide +kernel
+
+theorem falsy_refs (G : Str → Prop) : RefsIn G falsyS' := by
+  intro r hr
+  rw [falsy_refsOf] at hr
+  cases hr
+
+theorem worldJ (G : Str → Prop) : WorldCovered envJ G := fun _ _ _ h => nomatch h
+
+/-- `{"a": "s"}` -/
+def falsyInst : Json := .obj [(k "a", .str (k "s"))]
+
+theorem falsy_differ :
+    (eval envJ RefCex.impl (Draft.d4.cfg none) 3 falsyInst falsyS' none (stOf falsyS')).stop.isDone
+      ≠ (eval envJ RefCex.impl (Draft.d4.cfg none) 3 falsyInst falsyS none (stOf falsyS)).stop.isDone := by
+  decide +kernel
+
+/-- `is_valid` answered `True` -/
+def saidValid : Outcome Bool → Bool
+  | .ok true => true
+  | _ => false
+
+theorem falsy_verdict_differ :
+    saidValid (isValid (eval envJ RefCex.impl (Draft.d4.cfg none) 3 falsyInst falsyS') (stOf falsyS')).1
+      ≠ saidValid (isValid (eval envJ RefCex.impl (Draft.d4.cfg none) 3 falsyInst falsyS) (stOf falsyS)).1 := by
+  decide +kernel
+
+/-- no string reference can be met -/
+theorem falsy_refsMet (r : Str) : ¬ refsMet envJ falsyS' (stOf falsyS') r := by
+  rintro (h | ⟨kv, hkv, h⟩ | ⟨kv, hkv, h⟩ | ⟨_, _, _, hf, _⟩)
+  · rw [falsy_refsOf] at h; cases h
+  · cases hkv with
+    | head => rw [falsy_refsOf] at h; cases h
+    | tail _ h' => cases h'
+  · cases hkv
+  · exact nomatch hf
+
+end Refs
+
+theorem nested_unknown_inert_refs_counterexample : ¬ nested_unknown_inert_refs_statement := by
+  intro hall
+  have := (hall .d4 none Refs.envJ RefCex.impl (fun _ => False) Refs.falsyS Refs.falsyS' Refs.falsy_ins
+    (Refs.stOf Refs.falsyS) (Refs.stOf Refs.falsyS') (Refs.insState_stOf Refs.falsy_ins) (Refs.falsy_refs _)
+    (Refs.covered_stOf (Refs.falsy_refs _)) (Refs.worldJ _) (fun _ hr => hr.elim) 3 Refs.falsyInst none).2.1
+  exact Refs.falsy_differ (congrArg Stop.isDone this)
+
+theorem nested_unknown_inert_refs_met_counterexample : ¬ nested_unknown_inert_refs_met_statement := by
+  intro hall
+  have := (hall .d4 none Refs.envJ RefCex.impl Refs.falsyS Refs.falsyS' Refs.falsy_ins
+    (Refs.stOf Refs.falsyS) (Refs.stOf Refs.falsyS') (Refs.insState_stOf Refs.falsy_ins)
+    (fun r hr => (Refs.falsy_refsMet r hr).elim) 3 Refs.falsyInst none).2.1
+  exact Refs.falsy_differ (congrArg Stop.isDone this)
+
+theorem nested_unknown_inert_refs_verdict_counterexample : ¬ nested_unknown_inert_refs_verdict_statement := by
+  intro hall
+  have := hall .d4 none Refs.envJ RefCex.impl (fun _ => False) Refs.falsyS Refs.falsyS' Refs.falsy_ins
+    (Refs.stOf Refs.falsyS) (Refs.stOf Refs.falsyS') (Refs.insState_stOf Refs.falsy_ins) (Refs.falsy_refs _)
+    (Refs.covered_stOf (Refs.falsy_refs _)) (Refs.worldJ _) (fun _ hr => hr.elim) 3 Refs.falsyInst
+  exact Refs.falsy_verdict_differ (congrArg Refs.saidValid this)
 
 /-! #### a way to establish the guard: pointer navigation commutes with insertion
 
